@@ -513,9 +513,17 @@ def _task(args):
 
 
 def run_all(tasks, procs=16):
+    """replay in a process pool; tasks are dealt out in a fixed shuffled order so that the slow ones
+    (diskette images, long histories) do not end up in one worker's chunk"""
+    order = list(range(len(tasks)))
+    random.Random(12345).shuffle(order)
     ctx = multiprocessing.get_context('fork')
     with ctx.Pool(procs) as pool:
-        return pool.map(_task, tasks, chunksize=max(1, len(tasks) // (procs * 8)))
+        res = pool.map(_task, [tasks[k] for k in order], chunksize=4)
+    out = [None] * len(tasks)
+    for k, r in zip(order, res):
+        out[k] = r
+    return out
 
 
 # ---------------------------------------------------------------------------------------------
@@ -575,6 +583,9 @@ def facts(hist, cfgname, upto=None):
                 f.add('boot_file_without_iso_name_reopened')
             if hyb is not None:
                 f.add('hybrid_reopened')
+                if hyb['offset'] > 0 or hyb['sectors'] * hyb['heads'] == 1:
+                    # open_fp recomputes sectors as psize // ((ecyl & 0xff) + 1) / heads, psize excluding the offset
+                    f.add('hybrid_reopened_geometry_misread')
         if n == 'AddIsohybrid':
             hyb = a['spec']
             f.discard('isohybrid_on_consistent_object')
@@ -602,6 +613,8 @@ def facts(hist, cfgname, upto=None):
         efi = hyb['efi'] == 'yes' or (hyb['efi'] == 'none' and hyb['mac'])
         if efi:
             f.add('efi')
+            if hyb['sectors'] * hyb['heads'] < 33:
+                f.add('efi_cylinder_smaller_than_backup_gpt')     # the padding can never hold the backup GPT
         if hyb['mac']:
             f.add('mac')
         if (efi and hyb['entry'] == 2) or (hyb['mac'] and hyb['entry'] in (2, 3)):
@@ -674,7 +687,7 @@ def judge_items(module, items, batch=500, procs=4):
     return {iid: fails[u] for iid, u in ids.items() if u in fails}, len(uniq), stats
 
 
-def shrink(hist, cfgname, module, clause, want_hybrid=False, rounds=40):
+def shrink(hist, cfgname, module, clause, want_hybrid=False, rounds=40, circ_fn=None, circ=None):
     """greedy one-step-removal shrinking of a failing behaviour; the model (TLC) recomputes the
     expected outcomes of every candidate, the real library is replayed and TLC judges again."""
     acts = [s['act'] for s in hist['h']]
@@ -694,7 +707,9 @@ def shrink(hist, cfgname, module, clause, want_hybrid=False, rounds=40):
                 r['item']['id'] = 's%d' % n
                 items.append(r['item'])
         fails, _, _ = judge_items(module, items)
-        good = [int(i[1:]) for i, cl in fails.items() if clause in cl]
+        byid = dict((it['id'], it) for it in items)
+        good = [int(i[1:]) for i, cl in fails.items() if clause in cl and
+                (circ_fn is None or circ_fn(clause, hs[int(i[1:])], cfgname, byid[i]) == circ)]
         if not good:
             break
         k = min(good, key=lambda n: len(fails['s%d' % n]))
@@ -717,6 +732,10 @@ def c11_circumstance(clause, hist, cfgname, item):
             return 'nonbootable_section_entry'
         if d['act'] == 'Reopen' and 'UDF Anchors' in d['got'] and 'udf_name_removed_after_reopen' in fs:
             return 'udf_name_removed_after_reopen'
+        if d['act'] == 'Reopen' and 'UDF Anchors' in d['got']:
+            for x in ('unlinked_boot_file_reopened', 'boot_file_without_iso_name_reopened'):
+                if x in fs:
+                    return x
         if 'after_rm_eltorito_with_unlinked_boot_file' in fs:
             return 'after_rm_eltorito_with_unlinked_boot_file'
         return '%s/%s:%s->%s' % (d['act'], d['why'] or 'accepted', d['want'], ':'.join(d['got'].split(':')[:2]))
@@ -730,6 +749,11 @@ def c11_circumstance(clause, hist, cfgname, item):
         return ':'.join(item['expect']['master'].split(':')[:2])
     if clause == 'ReadBackPossible' and 'nonbootable_section_entry' in fs:
         return 'nonbootable_section_entry'
+    if clause == 'ReadBackPossible' and 'UDF Anchors' in item.get('open_error', ''):
+        # the truncated boot file occupies fewer sectors than the volume size accounts for
+        for x in ('unlinked_boot_file_reopened', 'boot_file_without_iso_name_reopened'):
+            if x in fs:
+                return x
     rm_bit = ('FilesAsExpected', 'LoadRbaIsWhereBootBytesStart', 'ReadBackUnpatched', 'BootInfoTable')
     reopened = ('FilesAsExpected', 'LoadRbaIsWhereBootBytesStart', 'BootInfoTable', 'ReadBackUnpatched')
     base = clause.split('.')[0]
@@ -782,10 +806,10 @@ def run(ctx):
                  ('c11s', 9, 2, 2, 40, 10, base_cfgs + ['jolrr'], 350),
                  ('c11n', 36, 1, 1, 3, 37, ['plain', 'all'], 40)]
     else:
-        plan += [('c11q', 5, 1, 1, None, None, base_cfgs + ['jolrr'], 5000),
+        plan += [('c11q', 5, 1, 1, None, None, base_cfgs + ['jolrr'], 3000),
                  ('c11m', 3, 1, 1, None, None, ['plain', 'all'], 1200),
                  ('c11f', 3, 0, 1, None, None, ['plain', 'all'], 200),
-                 ('c11t', 12, 2, 2, 300, 13, base_cfgs + ['jolrr'], 2500),
+                 ('c11t', 12, 2, 2, 300, 13, base_cfgs + ['jolrr'], 1200),
                  ('c11n', 36, 1, 1, 20, 37, ['plain', 'udf', 'all'], 200)]
     stats_list = []
     tasks = []
